@@ -1,5 +1,5 @@
 (* C10 - Each request reaches exactly the authenticator method for its command. *)
-From Ctap Require Import Base Schema Wire Typed Procs Inst Tables ProcTables Finite FramingP FnShapes Shapes ObShapeDispatch Deps ObDeps ObShapeRequest ObShapeU2fParse ObShapeTablesOp PlainDecls ObPlainU2fRequests ObPlainU2fResponses ObPlainMisc.
+From Ctap Require Import Base Schema Wire Typed Procs Inst Tables ProcTables Finite FramingP FnShapes Shapes ObShapeDispatch Deps ObDeps ObShapeRequest ObShapeU2fParse ObShapeTablesOp PlainDecls ObPlainU2fRequests ObPlainU2fResponses ObPlainMisc ObDispatchImpls.
 Local Open Scope string_scope.
 Local Open Scope Z_scope.
 
@@ -111,6 +111,10 @@ Proof. exact generated_plain_u2f_responses. Qed.
 Theorem c10_plain_structures_unchanged_misc : plain_hold raw_decls plain_misc = true.
 Proof. exact generated_plain_misc. Qed.
 
+(* which types implement the dispatch traits decides where a method call on a handle ends *)
+Theorem c10_dispatch_trait_impls_unchanged : dispatch_impls_hold dispatch_impls = true.
+Proof. exact generated_dispatch_impls. Qed.
+
 Eval vm_compute in "ASSUMPTIONS c10_ctap2". Print Assumptions c10_ctap2.
 Eval vm_compute in "ASSUMPTIONS c10_ctap1". Print Assumptions c10_ctap1.
 Eval vm_compute in "ASSUMPTIONS c10_exactly_one_call". Print Assumptions c10_exactly_one_call.
@@ -124,3 +128,4 @@ Eval vm_compute in "ASSUMPTIONS c10_modelled_functions_unchanged_tables_op". Pri
 Eval vm_compute in "ASSUMPTIONS c10_plain_structures_unchanged_u2f_requests". Print Assumptions c10_plain_structures_unchanged_u2f_requests.
 Eval vm_compute in "ASSUMPTIONS c10_plain_structures_unchanged_u2f_responses". Print Assumptions c10_plain_structures_unchanged_u2f_responses.
 Eval vm_compute in "ASSUMPTIONS c10_plain_structures_unchanged_misc". Print Assumptions c10_plain_structures_unchanged_misc.
+Eval vm_compute in "ASSUMPTIONS c10_dispatch_trait_impls_unchanged". Print Assumptions c10_dispatch_trait_impls_unchanged.
